@@ -13,13 +13,15 @@ import (
 // WithCancel mirrors context.WithCancel.
 func WithCancel(p context.Context) (context.Context, context.CancelFunc) {
 	c, cancel := context.WithCancel(p)
-	return c, func() { vrt.RelPoint(); cancel() }
+	vrt.TouchExternal(false)
+	return c, func() { vrt.RelPoint(); vrt.TouchExternal(true); cancel() }
 }
 
 // WithCancelCause mirrors context.WithCancelCause.
 func WithCancelCause(p context.Context) (context.Context, context.CancelCauseFunc) {
 	c, cancel := context.WithCancelCause(p)
-	return c, func(err error) { vrt.RelPoint(); cancel(err) }
+	vrt.TouchExternal(false)
+	return c, func(err error) { vrt.RelPoint(); vrt.TouchExternal(true); cancel(err) }
 }
 
 // WithTimeout mirrors context.WithTimeout on the virtual clock.
@@ -28,8 +30,9 @@ func WithTimeout(p context.Context, d time.Duration) (context.Context, context.C
 		return context.WithTimeout(p, d)
 	}
 	c, cancel := context.WithCancelCause(p)
-	stop := vrt.AddTimer(int64(d), func() { cancel(context.DeadlineExceeded) })
-	return c, func() { stop(); cancel(context.Canceled) }
+	vrt.TouchExternal(false)
+	stop := vrt.AddTimer(int64(d), func() { vrt.TouchExternal(true); cancel(context.DeadlineExceeded) })
+	return c, func() { stop(); vrt.TouchExternal(true); cancel(context.Canceled) }
 }
 
 // WithDeadline is not used by the code under test; real implementation.
@@ -38,7 +41,12 @@ func WithDeadline(p context.Context, t time.Time) (context.Context, context.Canc
 }
 
 // Err is ctx.Err() with a scheduling point.
-func Err(c context.Context) error { vrt.ShimOps++; vrt.Point(); return c.Err() }
+func Err(c context.Context) error {
+	vrt.ShimOps++
+	vrt.Point()
+	vrt.TouchExternal(false)
+	return c.Err()
+}
 
 // Cause is context.Cause with a scheduling point.
-func Cause(c context.Context) error { vrt.Point(); return context.Cause(c) }
+func Cause(c context.Context) error { vrt.Point(); vrt.TouchExternal(false); return context.Cause(c) }
